@@ -464,7 +464,7 @@ def network_corr(ctx, corr, nets, exact=True):
     # drained, something with content delivered)?  counted inside Coq with the decidable form of the premise; the
     # conclusion is recomputed on those pairs (a failure there would contradict the theorem, or mean the build is stale)
     hdr = NET_HEADER.replace('Definition chk := chk_net.', 'Definition chk := exact_vacuous.')
-    met = sum(m - nf for (m, nf, idx) in run_coq_cases(shards, hdr, timeout=1200))
+    met = sum(nf for (m, nf, idx) in run_coq_cases(shards, hdr, timeout=1200))      # chk = 'met nowhere'
     corr.count('network histories meeting the premises of C01_network_exactly_once on some stream', met)
     hdr = NET_HEADER.replace('Definition chk := chk_net.', 'Definition chk := exact_conclusion.')
     for si, (m, nf, idx) in enumerate(run_coq_cases(shards, hdr, timeout=1200)):
